@@ -1,6 +1,7 @@
 package sstable
 
 import (
+	"bytes"
 	"encoding/binary"
 	"fmt"
 	"sync"
@@ -105,15 +106,27 @@ func (it *Iterator) Seek(target []byte) bool {
 	it.initialized = true
 
 	// Find the block that might contain the key
-	// The index contains the first key of each block
-	if !it.indexIterator.Seek(target) {
-		// If seeking in the index fails, try the last block
-		it.indexIterator.SeekToLast()
-		if !it.indexIterator.Valid() {
-			// No blocks in the SSTable
-			it.resetBlockIterator()
-			return false
+	// The index contains the first key of each block, so the candidate is the
+	// last block whose first key is <= target (or the first block if the
+	// target sorts before every key)
+	blockIdx := -1
+	for it.indexIterator.SeekToFirst(); it.indexIterator.Valid(); it.indexIterator.Next() {
+		if bytes.Compare(it.indexIterator.Key(), target) > 0 {
+			break
 		}
+		blockIdx++
+	}
+	if blockIdx < 0 {
+		blockIdx = 0
+	}
+	it.indexIterator.SeekToFirst()
+	for i := 0; i < blockIdx && it.indexIterator.Valid(); i++ {
+		it.indexIterator.Next()
+	}
+	if !it.indexIterator.Valid() {
+		// No blocks in the SSTable
+		it.resetBlockIterator()
+		return false
 	}
 
 	// Load the data block at the current index position
